@@ -211,8 +211,10 @@ def scenarios(tier: str) -> List[Dict[str, Any]]:
     # wait_tasks_timeout window (clock ticks between the code's own timers)
     for w_ in (("sss",) if tier == "quick" else ("ssn", "sss", "sssn", "ssss")):
         for w in ((0.5,) if tier == "quick" else (0.3, 0.5)):
+            few = tier == "quick" or len(w_) == 4
             out.append({"A": None, "P": 0, "N": None, "W": w, "stream": "infinite", "stop": True, "msgs": _msgs(w_), "level": 0,
-                        "ticks": [450_000, 600_000, 750_000] if tier == "quick" else [150_000, 450_000, 600_000, 750_000, 900_000]})
+                        "ticks": [450_000, 600_000, 750_000] if few else [150_000, 450_000, 600_000, 750_000, 900_000],
+                        "max_states": 400000, "time_budget": 1500.0})
     for w_ in l1_words:
         for (a, p, n, w) in l1_cfg:
             out.append({"A": a, "P": p, "N": n, "W": w, "stream": "infinite", "stop": True, "msgs": _msgs(w_), "level": 1})
